@@ -1,13 +1,15 @@
 #!/bin/bash
 # usage: tools/mutant.sh <name> <python-edit-script-or-patch> <check ids...>
-# Applies an edit to the scratch worktree /tmp/mw3 (a checkout of /repo HEAD), runs the given checks with REPO=/tmp/mw3,
+# Applies an edit to the scratch worktree $MW (default /tmp/mw3, a checkout of /repo HEAD), runs the given checks with REPO=$MW,
 # prints per-check exit status, and restores the worktree.
 name="$1"; edit="$2"; shift 2
-cd /tmp/mw3 && git checkout -q -- . && git reset -q --hard "$(git -C /repo rev-parse HEAD)"
+MW="${MW:-/tmp/mw3}"
+[ -d "$MW" ] || git -C /repo worktree add --detach "$MW" HEAD -q
+cd "$MW" && git checkout -q -- . && git reset -q --hard "$(git -C /repo rev-parse HEAD)"
 if [[ "$edit" == *.diff || "$edit" == *.patch ]]; then git apply "$edit" || { echo "MUTANT $name: patch does not apply"; exit 2; }
 else python3 "$edit" || { echo "MUTANT $name: edit failed"; exit 2; }; fi
 for id in "$@"; do
-  out=$(cd /verif && REPO=/tmp/mw3 VERIF_CASES="${VERIF_CASES:-}" ./check "$id" quick 2>&1); rc=$?
+  out=$(cd /verif && REPO="$MW" VERIF_CASES="${VERIF_CASES:-}" ./check "$id" quick 2>&1); rc=$?
   echo "MUTANT $name check $id -> exit $rc $(echo "$out" | grep -c '^VIOLATION') violation line(s): $(echo "$out" | grep '^mdsim: violation' | head -2 | cut -c1-220)"
 done
-cd /tmp/mw3 && git checkout -q -- .
+cd "$MW" && git checkout -q -- .
